@@ -303,6 +303,44 @@ def gen_path(rng, tree, want="any"):
     return render(pos, sep), "concrete"
 
 
+def gen_keyword(rng, tree):
+    """A query through one of the search keywords ([has_child()], ...)."""
+    posns = [(p, n) for p, n in model.walk(tree) if p]
+    if not posns:
+        return "/nothing", "unmatched"
+    pos, node = rng.choice(posns)
+    sep = rng.choice([".", "/"])
+    here = render(pos, sep)
+    up = render(pos[:-1], sep)
+    forms = [("[name()]", here), ("[parent()]", here),
+             ("[parent(%d)]" % rng.choice([1, 2, 3]), here)]
+    if node.kind == "m":
+        keys = [k[1] for k, _v in node.items
+                if k[0] == "str" and simple(k[1])] or ["zz"]
+        key = rng.choice(keys + ["nokey"])
+        forms += [("[has_child(%s)]" % key, up),
+                  ("[!has_child(%s)]" % key, up),
+                  ("[has_child(%s)]" % key, here),
+                  ("[max(%s)]" % key, up), ("[min(%s)]" % key, up),
+                  ("[!max(%s)]" % key, up)]
+    if node.kind == "l":
+        forms += [("[max()]", here), ("[min()]", here), ("[unique()]", here),
+                  ("[distinct()]", here), ("[!max()]", here),
+                  ("[has_child(%s)]" % rng.choice(["a", "b", "0"]), here)]
+        inner = [k[1] for item in node.items if item.kind == "m"
+                 for k, _v in item.items if k[0] == "str" and simple(k[1])]
+        if inner:
+            key = rng.choice(inner)
+            forms += [("[max(%s)]" % key, here), ("[min(%s)]" % key, here),
+                      ("[has_child(%s)]" % key, here),
+                      ("[!min(%s)]" % key, here)]
+    text, base = rng.choice(forms)
+    path = join(base, text, sep)
+    if rng.random() < 0.25:
+        path = join(path, rng.choice(["*", "[name()]", "[parent()]"]), sep)
+    return path, "keyword-" + text[1:].split("(")[0].lstrip("!")
+
+
 def gen_collector(rng, tree):
     """(p1) op (p2) over two paths, favouring hashes that share pairs."""
     maps = [(p, n) for p, n in model.walk(tree) if n.kind == "m" and p]
@@ -718,7 +756,7 @@ class Session:
             # accepted: a refusal that changes nothing, or the placeholder
             # growing into exactly the missing tail.  Writing the value
             # anywhere else is a violation.
-            self.stats["forms"].add("create-under-null")
+            self.stats["forms"].add(("create", "create-under-null"))
         elif holder.kind not in ("m", "l") or \
                 (holder.kind == "m") != (tail[0][0] == "k"):
             self.stats["skipped"] += 1
@@ -897,7 +935,10 @@ def gen_op(rng, tree, prop, flow=False):
                         "segs": [list(s) for s in pos], "mode": "optional",
                         "value": rng.choice(["dflt", 7]),
                         "form": "optional-existing"}
-        path, form = gen_path(rng, tree, "any")
+        if rng.random() < 0.3:
+            path, form = gen_keyword(rng, tree)
+        else:
+            path, form = gen_path(rng, tree, "any")
         return {"op": "query", "path": path, "form": form,
                 "mode": rng.choice(["required", "exists", "first"])}
     if kind == "create":
